@@ -132,9 +132,24 @@ fn model_place(p: &Program) -> Option<Vec<P>> {
     }
     loc.into_iter().collect()
 }
-fn build(p: &Program) -> (tet::library::Library, Vec<Ptr<Instance>>) {
+/// Outline of a cell of bounding size `s`: a rectangle, or (for a third of the sizes) a two-step
+/// "tetris" outline with the same bounding box: full width up to half the height, half the width above.
+fn outline_of(s: P) -> Outline {
+    if s.0 >= 2 && s.1 >= 2 && (s.0 + s.1) % 3 == 0 {
+        Outline::new(&[s.0 as isize, (s.0 / 2) as isize], &[(s.1 / 2) as isize, s.1 as isize]).unwrap()
+    } else {
+        Outline::rect(s.0 as isize, s.1 as isize).unwrap()
+    }
+}
+/// How the cell holding the program sits in the library (derived from the program, so that replay
+/// files stay valid): 0 = listed on its own; 1 = also instantiated by a cell `outer` listed before it;
+/// 2 = reachable only through `outer` (not itself in the library's cell list).
+fn wrap_mode(p: &Program) -> usize {
+    (p.insts.len() + 2 * p.cells.len() + p.listing.first().copied().unwrap_or(0)) % 3
+}
+fn build(p: &Program) -> (tet::library::Library, Vec<Ptr<Instance>>, Ptr<Cell>) {
     let mut lib = tet::library::Library::new("plib");
-    let cells: Vec<Ptr<Cell>> = p.cells.iter().enumerate().map(|(i, s)| lib.cells.add(Cell::from(Layout::new(format!("c{}", i), 0, Outline::rect(s.0 as isize, s.1 as isize).unwrap())))).collect();
+    let cells: Vec<Ptr<Cell>> = p.cells.iter().enumerate().map(|(i, s)| lib.cells.add(Cell::from(Layout::new(format!("c{}", i), 0, outline_of(*s))))).collect();
     let insts: Vec<Ptr<Instance>> = p
         .insts
         .iter()
@@ -161,14 +176,25 @@ fn build(p: &Program) -> (tet::library::Library, Vec<Ptr<Instance>>) {
     for &i in &p.listing {
         top.instances.push(insts[i].clone());
     }
-    lib.cells.add(Cell::from(top));
-    (lib, insts)
+    let top = match wrap_mode(p) {
+        0 => lib.cells.add(Cell::from(top)),
+        mode => {
+            let top = Ptr::new(Cell::from(top));
+            let mut outer = Layout::new("outer", 0, Outline::rect(200_000, 200_000).unwrap());
+            outer.instances.push(Ptr::new(Instance { inst_name: "the_top".into(), cell: top.clone(), loc: (3isize, 5isize).into(), reflect_horiz: false, reflect_vert: false }));
+            lib.cells.add(Cell::from(outer));
+            if mode == 1 {
+                lib.cells.push(top.clone());
+            }
+            top
+        }
+    };
+    (lib, insts, top)
 }
 /// Place and read back (name -> (loc, boundbox))
 fn place(p: &Program) -> Result<BTreeMap<String, (P, BB)>, String> {
-    let (lib, _) = build(p);
-    let (lib, _) = tet::placer::Placer::place(lib, empty_stack()).map_err(|e| format!("{:?}", e))?;
-    let top = lib.cells.iter().find(|c| c.read().unwrap().name == "top").unwrap().clone();
+    let (lib, _, top) = build(p);
+    let (_lib, _) = tet::placer::Placer::place(lib, empty_stack()).map_err(|e| format!("{:?}", e))?;
     let top = top.read().unwrap();
     let mut out = BTreeMap::new();
     for ip in top.layout.as_ref().unwrap().instances.iter() {
@@ -392,7 +418,7 @@ fn array_case(src: &mut Src, ctx: &mut Ctx) -> Result<(), String> {
     let na = src.usize_in(1, 3);
     let arrs: Vec<MArrayInst> = (0..na).map(|_| MArrayInst { array: gen_array(src, 2, nc), loc: (src.signed(300), src.signed(300)), rh: src.bool(), rv: src.bool() }).collect();
     let mut lib = tet::library::Library::new("alib");
-    let cells: Vec<Ptr<Cell>> = sizes.iter().enumerate().map(|(i, s)| lib.cells.add(Cell::from(Layout::new(format!("c{}", i), 0, Outline::rect(s.0 as isize, s.1 as isize).unwrap())))).collect();
+    let cells: Vec<Ptr<Cell>> = sizes.iter().enumerate().map(|(i, s)| lib.cells.add(Cell::from(Layout::new(format!("c{}", i), 0, outline_of(*s))))).collect();
     let mut top = Layout::new("top", 0, Outline::rect(100_000, 100_000).unwrap());
     let mut want = vec![];
     for (k, ai) in arrs.iter().enumerate() {
